@@ -688,7 +688,11 @@ impl<'a, C: KeyColl> KeyRun<'a, C> {
             return Step::Continue;
         }
         let d = op.args[1].rem_euclid(1 << 20) as i32;
-        let exp = t.saturating_add(d);
+        // d >= 500 000 stands for "never expires": the expiration type's maximum
+        let exp = if d >= 500_000 { i32::MAX } else { t.saturating_add(d) };
+        if exp == i32::MAX {
+            self.out.class("ins_exp_max");
+        }
         let serial = self.next_serial();
         let key = XKey::new(k, exp, serial);
         self.inserted_since_clear += 1;
